@@ -502,7 +502,17 @@ pub fn check(
         };
         match expect {
             FileExpect::Unchanged => {
-                if !unchanged {
+                // another name of a file that was (to be) rewritten under its eligible name shares
+                // its inode: it shows the new content too when the tool writes in place (and keeps
+                // the old one when the tool replaces the file) - both are fine
+                let via_other_name = write_mode
+                    && before_seen.get(key).is_some_and(|b| {
+                        b.nlink > 1
+                            && before_seen.iter().any(|(k2, b2)| {
+                                k2 != key && b2.ino == b.ino && matches!(pred.files.get(k2), Some(FileExpect::Exactly(_)) | Some(FileExpect::Torn { .. }) | Some(FileExpect::UnchangedOrExactly(_))) && after.get(k2).map(|s2| &s2.node) == Some(&seen.node)
+                            })
+                    });
+                if !unchanged && !via_other_name {
                     let what = if Some(&seen.node) != before_node { "content" } else { "modification time" };
                     let id = if check_mode { "I14.1-tree" } else { "I15.2-untouched" };
                     v.push(viol(tree_props, id, step, format!("{} of {:?} changed although it must not ({})", what, key, describe(inv, pred, key))));
